@@ -94,6 +94,7 @@ def prefix_lists(rng, quick):
         ["10.0.0.0/8", "10.1.0.0/16", "10.1.2.0/24"],
         ["10.0.0.0/8", "11.0.0.0/8", "10.128.0.0/9"],
         ["255.255.255.255/32", "0.0.0.0/32"],
+        ["20.0.0.0/25", "20.0.0.128/25"], ["10.0.0.0/9", "10.128.0.0/9", "30.1.2.0/31", "30.1.2.2/31"],
         list(README_DEFAULT_PREFIXES) + ["100.64.0.0/10"],
     ]
     out = list(fixed)
@@ -196,6 +197,13 @@ def addresses(rng, cfg, n, extra_nets=()):
         out.extend([0, full, 1, full - 1, 1 << 31])
     else:
         out.extend([0, full, 1, 1 << 127, 0xFE80 << 112, (0x20010DB8 << 96) | rng.getrandbits(64)])
+        # special IPv6 blocks: IPv4-mapped, IPv4-compatible / very low, 6to4, ULA, multicast - and a neighbour just outside each
+        for base, plen in ((0xFFFF << 32, 96), (0, 96), (0x2002 << 112, 16), (0xFC << 120, 7), (0xFF << 120, 8), (0x64FF9B << 96, 96)):
+            inside = base | rng.getrandbits(128 - plen)
+            must.append(inside)
+            must.append(inside ^ (1 << rng.randrange(128 - plen)))
+            must.append(inside ^ (1 << (128 - plen)))          # sibling block
+            must.append(inside ^ (1 << rng.randrange(128 - plen, 128)))
     rng.shuffle(out)
     out = must + (out[: max(n, 8)] if len(out) > n else out)
     rng.shuffle(out)
